@@ -56,7 +56,7 @@ OUTPUT_TYPES = {
     "PartitionAndSumsTuple": out.PartitionAndSumsTuple, "PartitionAndSums": out.PartitionAndSums,
 }
 SUMS_ONLY_TYPES = ["Sums", "LargestSum", "SmallestSum", "ExtremeSums", "SortedSums", "Difference", "BinCount"]
-PRESENTATIONS = ["list", "array", "dict-str", "dict-int", "names"]
+PRESENTATIONS = ["list", "array", "dict-str", "dict-int", "names", "names-array"]
 
 
 def kind_of(alg):
@@ -197,6 +197,10 @@ def present(values, pres="list", nseed=0, den=1):
         names = str_names(values, nseed) if (nseed // 3) % 2 == 0 else int_names(values, nseed)
         d = {nm: (v if den == 1 else v / den) for nm, v in zip(names, values)}
         return Presented(list(names), (lambda name, _d=d: _d[name]), names, dict(zip(names, ev)), pres)
+    if pres == "names-array":       # a numpy array of integer item ids plus a value function: two documented input kinds combined
+        names = int_names(values, nseed)
+        d = {nm: (v if den == 1 else v / den) for nm, v in zip(names, values)}
+        return Presented(np.array(names, dtype=np.int64), (lambda name, _d=d: _d[name]), names, dict(zip(names, ev)), pres)
     raise env.HarnessError(f"unknown presentation {pres}")
 
 
@@ -579,3 +583,25 @@ def snapshot(presented):
         if isinstance(d, dict):
             extra = [(k, repr(v)) for k, v in d.items()]
     return (snap, extra)
+
+
+def objective_sequence(spec, weights, calls):
+    """ONE objective object evaluated on several vectors in order.  calls: list of (sums, seq, declared_sorted).
+    Returns the list of outcomes (state kept by the object between evaluations would show as a wrong later value)."""
+    o = obj.MaximizeSmallestWeightedSum(list(weights)) if spec == "wmaxmin" else make_objective(spec)
+    outs = []
+    for sums, seq, declared in calls:
+        arg = make_sequence(sums, seq)
+
+        def run(arg=arg, declared=declared):
+            kw = {}
+            if declared is not None:
+                kw["are_sums_in_ascending_order"] = declared
+            raw = o.value_to_minimize(arg, **kw)
+            if isinstance(raw, np.ndarray):
+                if raw.shape != ():
+                    raise TypeError(f"objective returned an array of shape {raw.shape}, not a number")
+                raw = raw[()]
+            return num(raw)
+        outs.append(guarded(run))
+    return outs
